@@ -67,7 +67,10 @@ impl Arb for Pattern {
 
 impl Arb for SkSpec {
     fn arb(u: &mut Unstructured<'_>) -> Result<Self> {
-        Ok(if u.arbitrary::<bool>()? {
+        let sel = u.int_in_range(0..=4u8)?;
+        Ok(if sel == 4 {
+            SkSpec::SingleT0 { seed: Seed32::arb(u)?, poly: u.arbitrary()?, t0: Pattern::arb(u)? }
+        } else if sel < 2 {
             SkSpec::Generated(Seed32::arb(u)?)
         } else {
             SkSpec::Fields { rho: Seed32::arb(u)?, key: Seed32::arb(u)?, tr_seed: u64::from(u.arbitrary::<u8>()?), s1: Pattern::arb(u)?, s2: Pattern::arb(u)?, t0: Pattern::arb(u)?, consistent: u.arbitrary()? }
